@@ -383,6 +383,7 @@ fn gen(line: &str) -> String {
             .lrpar_config(move |ctp| {
                 ctp.yacckind(yk)
                     .error_on_conflicts(false)
+                    .warnings_are_errors(false)
                     .show_warnings(false)
                     .grammar_path(yp.clone())
                     .output_path(format!("{}/g.y.rs", dir1))
@@ -405,6 +406,7 @@ fn gen(line: &str) -> String {
         let res = CTParserBuilder::<LT>::new()
             .yacckind(yk)
             .error_on_conflicts(false)
+            .warnings_are_errors(false)
             .show_warnings(false)
             .serialisation_format(lrpar::ctbuilder::SerialisationFormat::FixedSizeInteger)
             .grammar_path(y2.clone())
@@ -416,7 +418,16 @@ fn gen(line: &str) -> String {
                 tm.sort();
                 // (3) token map module (needs OUT_DIR)
                 std::env::set_var("OUT_DIR", &dir);
-                let r3 = lrlex::CTTokenMapBuilder::<u32>::new("tokmap", ctp.token_map()).allow_dead_code(true).build();
+                // tokens whose names are not Rust identifiers get a deterministic replacement name
+                let renames: Vec<(String, String)> = tm
+                    .iter()
+                    .filter(|(k, _)| !k.chars().all(|c| c.is_ascii_alphanumeric() || c == '_') || k.chars().next().map_or(true, |c| c.is_ascii_digit()))
+                    .map(|(k, _)| (k.clone(), format!("X{}", hex(k))))
+                    .collect();
+                let r3 = lrlex::CTTokenMapBuilder::<u32>::new("tokmap", ctp.token_map())
+                    .rename_map(Some(renames))
+                    .allow_dead_code(true)
+                    .build();
                 std::env::remove_var("OUT_DIR");
                 Ok((tm, r3.map_err(|e| format!("{}", e))))
             }
